@@ -987,6 +987,7 @@ struct elements_range_t {
 	auto operator=(elements_range_t const&) -> elements_range_t& = delete;
 
 	auto operator=(elements_range_t     && other) noexcept(std::is_nothrow_copy_assignable_v<value_type>) -> elements_range_t& {  // cannot be =delete in NVCC?
+		BOOST_MULTI_ASSERT(size() == other.size());
 		if(! is_empty()) {adl_copy(other.begin(), other.end(), this->begin());}
 		return *this;
 	}
